@@ -29,13 +29,14 @@ ASSUMPTIONS = [
 ]
 TRUSTED = ["taskiq_dependencies 1.5.7 (executed)", "CPython asyncio (real, virtual clock)", "vt.sym explorer"]
 BOUNDS = {"concurrent executions": "2 (quick) / 2 and 3 (thorough) direct callbacks; 3 (quick) / 3 and 4 (thorough) messages through Receiver.listen with max_async_tasks 1 and 2", "dependency shapes": 6, "suspension points per execution": "<= 4"}
-REQUIRED_COVERS = ["interleaved_in_resolution", "nocache", "nested", "generator", "cached", "via_listen"]
-SHAPES = ("cached", "nocache_after_wait", "nested_nocache", "generator_nocache", "sync_nocache", "ctx_param_only")
+REQUIRED_COVERS = ["typed_args", "interleaved_in_resolution", "nocache", "nested", "generator", "cached", "via_listen"]
+SHAPES = ("cached", "nocache_after_wait", "nested_nocache", "generator_nocache", "sync_nocache", "ctx_param_only", "equal_args_of_different_type")
+ARGS_BY_TYPE = [1, True, 1.0]
 
 
 def cases(tier: str, hname: str) -> List[Any]:
     if hname == "direct":
-        return [{"shape": s, "n": n} for s in SHAPES for n in ((2,) if tier == "quick" else (2, 3))]
+        return [{"shape": s, "n": n, "A": a} for s in SHAPES for n in ((2,) if tier == "quick" else (2, 3)) for a in (None, 1)]
     return [{"shape": s, "A": a, "msgs": m} for s in ("nocache_after_wait", "nested_nocache") for a in (2, 1)
             for m in ((3,) if tier == "quick" else (3, 4))]
 
@@ -136,6 +137,8 @@ def harness(c: sym.Ctx, case: Dict[str, Any]) -> None:
     try:
         broker = make_broker(lab, backend_gate=True)
 
+        if shape == "equal_args_of_different_type":
+            c.cover("typed_args")
         if shape == "cached":
             c.cover("cached")
 
@@ -165,6 +168,12 @@ def harness(c: sym.Ctx, case: Dict[str, Any]) -> None:
                            ctx: Context = TaskiqDepends()) -> Any:
                 await wait("body")
                 return (i, rid if rid == rid0 else f"{rid0}|{rid}", ctx.message.task_id, dict(ctx.message.labels), list(ctx.message.args))
+        elif shape == "equal_args_of_different_type":
+            from typing import Union
+
+            async def task(i: Union[bool, int, float], ctx: Context = TaskiqDepends()) -> Any:  # type: ignore[misc]
+                await wait("body")
+                return (i, ctx.message.task_id, ctx.message.task_id, dict(ctx.message.labels), list(ctx.message.args))
         else:
             async def task(i: int, ctx: Context = TaskiqDepends()) -> Any:  # type: ignore[misc]
                 await wait("body")
@@ -173,9 +182,11 @@ def harness(c: sym.Ctx, case: Dict[str, Any]) -> None:
                 return (i, first, ctx.message.task_id, dict(ctx.message.labels), list(ctx.message.args))
 
         broker.register_task(task, task_name="t")
-        recv = Receiver(broker, executor=InlineExecutor(), run_startup=False, max_async_tasks=None)
+        # callbacks are started directly (as InMemoryBroker does), so they overlap whatever the receiver's own limit is
+        recv = Receiver(broker, executor=InlineExecutor(), run_startup=False, max_async_tasks=case.get("A"))
         nmsg = case.get("n", 2)
-        msgs = [ackable(lab, i, encode(broker, "t", f"id{i}", [i], {"who": f"L{i}"}), False) for i in range(nmsg)]
+        sent = [ARGS_BY_TYPE[i] if shape == "equal_args_of_different_type" else i for i in range(nmsg)]
+        msgs = [ackable(lab, i, encode(broker, "t", f"id{i}", [sent[i]], {"who": f"L{i}"}), False) for i in range(nmsg)]
 
         async def main() -> None:
             tasks = [asyncio.ensure_future(recv.callback(message=m, raise_err=False)) for m in msgs]
@@ -189,10 +200,10 @@ def harness(c: sym.Ctx, case: Dict[str, Any]) -> None:
     order = [e[0] for e in lab.ev if e[0] in ("slow_done",)]
     if len(order) >= 2 and lab.index("slow_done") < lab.index("set_result", "begin"):
         c.cover("interleaved_in_resolution")
-    check_results(c, lab, case.get("n", 2), shape)
+    check_results(c, lab, case.get("n", 2), shape, sent)
 
 
-def check_results(c: sym.Ctx, lab: Any, n: int, shape: str) -> None:
+def check_results(c: sym.Ctx, lab: Any, n: int, shape: str, sent: Any = None) -> None:
     stored = {e[2]: e[3] for e in lab.ev if e[:2] == ("set_result", "begin")}
     c.check(sorted(stored) == [f"id{i}" for i in range(n)], "one_result_per_task_id", stored=sorted(stored))
     for i in range(n):
@@ -203,7 +214,9 @@ def check_results(c: sym.Ctx, lab: Any, n: int, shape: str) -> None:
         if res.is_err:
             continue
         arg, rid, cid, labels, args = res.return_value
-        c.check(arg == i and list(args) == [i], "result_stored_under_the_id_of_the_message_that_produced_it", msg=i, arg=arg, args=args)
+        want = sent[i] if sent is not None else i
+        c.check(type(arg) is type(want) and arg == want and [type(a) for a in args] == [type(want)] and list(args) == [want],
+                "result_stored_under_the_id_of_the_message_that_produced_it", msg=i, arg=arg, args=args, want=want)
         c.check(cid == f"id{i}" and labels == {"who": f"L{i}"}, "task_function_sees_its_own_context", msg=i, ctx_task_id=cid, labels=labels)
         c.check(rid == f"id{i}", "dependency_sees_the_context_of_its_own_message", msg=i, dep_saw=rid, shape=shape)
         c.check(res.labels == {"who": f"L{i}"}, "result_carries_own_labels", msg=i, labels=res.labels)
